@@ -353,6 +353,31 @@ def gen_evict(scn, rng):
     return h
 
 
+def gen_move_down(scn, rng):
+    """Instances with data retention placed, most servers go down, most instances
+    are re-assigned to another allocation (other partition / other traits) while
+    their retention is still running; cycles before and after it runs out."""
+    keep = [i + 1 for i, p in enumerate(scn['aprofiles']) if p.get('retention', 0) != 0]
+    anyp = list(range(1, len(scn['aprofiles']) + 1))
+    apps = list(scn['apps'])
+    rng.shuffle(apps)
+    h = [('Submit', [a, rng.choice(keep) if keep and rng.random() < 0.8 else rng.choice(anyp)])
+         for a in apps[:rng.randrange(2, len(apps) + 1)]]
+    used = [e[1][0] for e in h]
+    h.append(('Cycle', []))
+    for s, k in sorted(scn['server_init'].items()):
+        if k and rng.random() < 0.7:
+            h.append((rng.choice(['Down', 'Down', 'Freeze']), [s]))
+    for a in used:
+        if rng.random() < 0.7:
+            h.append(('Move', [a, rng.choice(sorted(scn['allocs']))]))
+    h.append(('Tick', [1]))
+    h.append(('Cycle', []))
+    h.append(('Tick', [rng.choice([1, 2, 5])]))
+    h.append(('Cycle', []))
+    return h
+
+
 def gen_random(scn, rng, depth, weights=None):
     """A random event history that respects the events' guards by tracking a
     light shadow (which apps/servers exist).  Ends with a Cycle.  `weights`
